@@ -284,6 +284,7 @@ def run(repo='/repo', tier='quick'):
     c12f(db, res)
     c12g(db, res)
     c12h(db, res)
+    c12i(db, res)
     return res
 
 
@@ -515,3 +516,44 @@ def c12h(db, res):
             res.check(not bad and bool(back), 'C12.h', key, '%s is advanced before every way back to the loop head (%d block/flag states explored)%s' % (cur, len(IN), ('; reviewed stall excluded: ' + stall[1]) if stall and used_stall[0] else ''),
                       'an iteration of %s can return to the loop head without advancing %s: the same byte is decoded again and again and the output is filled with it' % (f.name, cur), cnd[0]['loc'])
     res.floor('C12.h', 'scanning loops of in-place decoders', n, 4)
+
+
+def c12i(db, res):
+    """NUL termination is part of the documented pipeline: `nul_encoded_terminates` / `nul_raw_terminates` cut the string at the
+    NUL.  Every place that recognises an encoded (raw) NUL - it raises the ENCODED_NUL (RAW_NUL) indicator under a test of the
+    byte against 0 - has to consult the matching option under that same test; the %XX and %u forms of one decoder are siblings."""
+    res.rule('C12.i', 'NUL termination wherever a NUL is recognised: every site that raises an ENCODED_NUL / RAW_NUL indicator is followed, under the same `byte == 0` test, by a test of nul_encoded_terminates / nul_raw_terminates whose true arm cuts the string (bstr_adjust_len) and returns')
+    n = 0
+    for name, f in sorted(db.fn.items()):
+        if not f.blocks:
+            continue
+        ordn = {}
+        for b, i, st in sorted(f.stmts(), key=lambda t: [int(v) for v in t[2]['loc'].split(':')[1:3]] if t[2].get('loc') else [0, 0]):
+            for w in nodes(st, lambda y: y.get('k') == 'assign' and y.get('op') == '|='):
+                fl = lit_name(w['r']) or ''
+                if not fl.endswith('_ENCODED_NUL') and not fl.endswith('_RAW_NUL'):
+                    continue
+                ordn[fl] = ordn.get(fl, 0) + 1
+                opt = 'nul_encoded_terminates' if fl.endswith('_ENCODED_NUL') else 'nul_raw_terminates'
+                # the zero test this raise sits under
+                zt = [(a, d) for a, d in P.facts_at(f, b) if a[1] == '==' and a[2] == '0']
+                if not zt:
+                    continue
+                n += 1
+                zb = zt[-1][1]
+                # blocks under the same test edge that branch on the option
+                ok = False
+                for b2 in f.blocks:
+                    c2 = f.cond_of(b2)
+                    if not c2 or opt not in P.K(c2[0]):
+                        continue
+                    if not any(d == zb and a == zt[-1][0] for a, d in P.facts_at(f, b2)):
+                        continue
+                    # true arm: adjust_len then return
+                    tb = c2[1]
+                    sts = f.blocks[tb]['stmts']
+                    if any(c.get('callee') == 'bstr_adjust_len' for s_ in sts for c in nodes(s_, lambda y: y.get('k') == 'call')) and any(s_.get('k') == 'return' for s_ in sts):
+                        ok = True
+                res.check(ok, 'C12.i', '%s:%s#%d' % (name, fl, ordn[fl]), 'the option %s is consulted under the same test and cuts the string' % opt,
+                          '%s raises %s here but does not consult %s under that test: with the option on, this spelling of the NUL does not terminate the string while its sibling spelling does' % (name, fl, opt), w['loc'])
+    res.floor('C12.i', 'NUL indicator raise sites', n, 5)
